@@ -1,8 +1,8 @@
 use super::*;
-#[cfg(not(feature = "verif-hooks"))]
-use alloc::alloc::{alloc, dealloc, realloc};
 #[cfg(feature = "verif-hooks")]
 use crate::verif_hooks::{alloc, dealloc, realloc};
+#[cfg(not(feature = "verif-hooks"))]
+use alloc::alloc::{alloc, dealloc, realloc};
 use core::{alloc::Layout, hint, ptr, ptr::NonNull};
 
 #[cfg(not(loom))]
